@@ -1,61 +1,44 @@
 #!/usr/bin/env python3
-"""usage: tools/try_seed.py <patch.diff> [--props C01,C02] — apply a seeded change to /repo, run the quick checks,
-report which properties raise a violation, and undo the change (always)."""
+"""usage: tools/try_seed.py <patch.diff> [--props C01,C02] — apply a change to a scratch copy of /repo's working tree (system
+temporary directory, removed afterwards), run the quick checks against the copy and print which properties report a
+violation.  /repo itself is not touched."""
 import concurrent.futures as cf
-import json
-import os
-import subprocess
-import sys
-
+import json, os, shutil, subprocess, sys, tempfile
 VERIF = os.path.dirname(os.path.dirname(os.path.abspath(__file__)))
-REPO = "/repo"
-
-
-def run_check(pid):
-    p = subprocess.run([os.path.join(VERIF, "checks", "run"), pid, "quick"], capture_output=True, text=True, cwd=VERIF)
-    viol = [l for l in p.stdout.splitlines() if l.startswith("  at ") or l.startswith("VIOLATION")]
-    return pid, p.returncode, viol, p.stdout[-400:] + p.stderr[-400:]
+sys.path.insert(0, os.path.join(VERIF, "tools"))
+from seed_matrix import run_check, REPO
 
 
 def main():
-    patch = sys.argv[1]
-    props = None
+    patch = os.path.abspath(sys.argv[1])
+    man = json.load(open(os.path.join(VERIF, "MANIFEST.json")))
+    props = [c["property_id"] for c in man["checks"]]
     if "--props" in sys.argv:
         props = sys.argv[sys.argv.index("--props") + 1].split(",")
-    man = json.load(open(os.path.join(VERIF, "MANIFEST.json")))
-    allp = [c["property_id"] for c in man["checks"]]
-    props = props or allp
-    st = subprocess.run(["git", "-C", REPO, "status", "--porcelain"], capture_output=True, text=True).stdout.strip()
-    if st:
-        print("refusing: /repo has local changes:\n" + st)
-        return 2
-    a = subprocess.run(["git", "-C", REPO, "apply", "--whitespace=nowarn", patch], capture_output=True, text=True)
-    if a.returncode != 0:
-        print("patch does not apply:", a.stderr)
-        return 2
-    out = {}
+    root = tempfile.mkdtemp(prefix="verif-tryseed.")
+    work = os.path.join(root, "w")
     try:
-        # first one exports the facts, the rest reuse them
-        first = run_check(props[0])
-        out[first[0]] = first
+        subprocess.run(["rsync", "-a", "--exclude", "/target", "--exclude", ".git", REPO + "/", work + "/"], check=True)
+        a = subprocess.run(["git", "apply", "--whitespace=nowarn", patch], cwd=work, capture_output=True, text=True)
+        if a.returncode != 0:
+            print("patch does not apply:", a.stderr[:300])
+            return 2
+        first = run_check(props[0], work)
+        res = [first]
         with cf.ThreadPoolExecutor(max_workers=6) as ex:
-            for r in ex.map(run_check, props[1:]):
-                out[r[0]] = r
+            res += list(ex.map(lambda p: run_check(p, work), props[1:]))
+        caught = []
+        for pid, rc, viol, dt in res:
+            if rc == 1:
+                caught.append(pid)
+                for v in viol[:4]:
+                    print("  %s %s" % (pid, v[:300]))
+            elif rc != 0:
+                print("  %s BROKEN (exit %s)" % (pid, rc))
+        print("CAUGHT-BY:", ",".join(caught) or "-")
+        return 0
     finally:
-        subprocess.run(["git", "-C", REPO, "checkout", "--", "."], check=True)
-        subprocess.run(["git", "-C", REPO, "clean", "-fdq", "tests"], check=False)
-    caught = [p for p in props if out[p][1] == 1]
-    broken = [p for p in props if out[p][1] not in (0, 1)]
-    print("CAUGHT-BY:", ",".join(caught) or "-")
-    if broken:
-        print("CHECK-BROKEN:", ",".join(broken))
-        for p in broken:
-            print(out[p][3])
-    for p in caught:
-        for l in out[p][2][:6]:
-            if l.startswith("  at "):
-                print("  [%s]%s" % (p, l[:260]))
-    return 0
+        shutil.rmtree(root, ignore_errors=True)
 
 
 if __name__ == "__main__":
